@@ -44,6 +44,70 @@ let jo_str = function
 
 let uniq l = List.sort_uniq compare l
 
+let just_case tg ws base parents headers fblk fnum tblk tnum pcs ps obs =
+
+    let base = n_of_hex base and parents = ints parents in
+    let hs = List.map (fun b -> tree_hdr base parents b) (ints headers) in
+    let fhash = n_of_hex fblk and fnum = n_of_hex fnum in
+    let thash = n_of_hex tblk and tnum = n_of_hex tnum in
+    let raw = List.map (fun s -> match String.split_on_char '.' s with
+      | [i; b; nm; k] -> (n_of_hex i, n_of_hex b, n_of_hex nm, k)
+      | _ -> fail "C19: bad precommit %s" s) (split ',' pcs) in
+    let orders = perms ps (List.length raw) in
+    let (oo, bits) = (match split_ws obs with [a; b] -> (a, b) | _ -> ("?", "-")) in
+    if oo = "novoters" then
+      let m = new_voter_set ws in
+      { prop_ok = true; model_eq = (m = None); nontrivial = false; finding = "-"; tags = "" ^ tg ^ ",vj-novoters";
+        detail = if m = None then "" else "model has a voter set" }
+    else begin
+      let outs = String.split_on_char ';' oo in
+      let bl = List.map (fun b -> match String.split_on_char ':' b with
+        | [v; l] when String.length v = 2 -> (v.[0] = '1', v.[1] = '1', n_of_hex l)
+        | _ -> fail "C19: bad bits %s" b) (split ',' bits) in
+      match new_voter_set ws with
+      | None -> { prop_ok = true; model_eq = false; nontrivial = false; finding = "-"; tags = "" ^ tg ^ ",vj-novoters-model";
+                  detail = "the model has no voter set for these weights" }
+      | Some vs ->
+        if List.length outs <> List.length orders || List.length bl <> List.length raw then
+          { prop_ok = true; model_eq = false; nontrivial = false; finding = "-"; tags = "" ^ tg ^ ",bad-observation"; detail = obs }
+        else begin
+          let mk w = List.map2 (fun (i, b, nm, _) (o32, o64, l) ->
+            { p_hash = b; p_num = nm; p_id = i; p_sig = l; p_ok = (if w = 32 then o32 else o64) }) raw bl in
+          let pcs32 = mk 32 and pcs64 = mk 64 in
+          let sig_sane = List.for_all2 (fun (_, _, _, k) (o32, o64, _) -> o32 = (k = "v") && o64 = (k = "v")) raw bl in
+          let excess = excess_equivocation vs pcs64 in
+          let spec32 = justification_valid_spec vs hs fhash fnum thash tnum pcs32 in
+          let spec64 = justification_valid_spec vs hs fhash fnum thash tnum pcs64 in
+          let per = List.map2 (fun p o ->
+            let (r32, r64) = (match String.split_on_char '/' o with [a; b] -> (a, b) | _ -> ("?", "?")) in
+            let m32 = jo_str (verify_finalizes vs hs fhash fnum thash tnum (permute pcs32 p)) in
+            let m64 = jo_str (verify_finalizes vs hs fhash fnum thash tnum (permute pcs64 p)) in
+            (r32, r64, m32, m64)) orders outs in
+          let width_free = List.for_all (fun (a, b, _, _) -> (a = "ok") = (b = "ok")) per in
+          let accepts = uniq (List.concat_map (fun (a, b, _, _) -> [a = "ok"; b = "ok"]) per) in
+          let order_free = (List.length accepts = 1) in
+          let spec_ok = List.for_all (fun (a, b, _, _) -> (a = "ok") = spec32 && (b = "ok") = spec64) per in
+          let eq = sig_sane && List.for_all (fun (a, b, m32, m64) ->
+            (m32 = "ambiguous" || a = m32) && (m64 = "ambiguous" || b = m64)) per in
+          let prop = width_free && order_free && (excess || spec_ok) in
+          let finding = if (not prop) && excess && width_free then "commit-order-dependent-under-excess-equivocation" else "-" in
+          let (r0, _, m0, _) = List.hd per in
+          let ms = members vs pcs64 in
+          { prop_ok = prop; model_eq = eq || excess; nontrivial = ms <> []; finding;
+            tags = String.concat "," ([tg; tg ^ "-" ^ m0; (if spec64 then tg ^ "-valid" else tg ^ "-invalid")]
+              @ (if excess then [tg ^ "-excess-equivocation"] else [])
+              @ (if List.exists (fun (_, _, _, k) -> k <> "v") raw then [tg ^ "-bad-signature"] else [])
+              @ (if List.length ms < List.length raw then [tg ^ "-non-member"] else [])
+              @ (if List.length (uniq (List.map fst ws)) < List.length ws then [tg ^ "-repeated-voter-id"] else [])
+              @ (if sig_sane then [] else ["verdict-unexpected"]));
+            detail = (if prop && eq then "" else
+              Printf.sprintf "impl=%s model=%s spec-valid=%b%s%s%s" r0 m0 spec64
+                (if width_free then "" else " (uint32 and uint64 verdicts differ)")
+                (if order_free then "" else " (verdict depends on the precommit order)")
+                (if excess then " (equivocating weight exceeds total-threshold)" else "")) }
+        end
+    end
+
 let check inp obs =
   let f = split_ws inp in
   match f with
@@ -136,68 +200,18 @@ let check inp obs =
         end
     end
   | ["vj"; ws; base; parents; headers; fblk; fnum; tblk; tnum; _round; _setid; pcs; ps] ->
-    let ws = weights ws in
-    let base = n_of_hex base and parents = ints parents in
-    let hs = List.map (fun b -> tree_hdr base parents b) (ints headers) in
-    let fhash = n_of_hex fblk and fnum = n_of_hex fnum in
-    let thash = n_of_hex tblk and tnum = n_of_hex tnum in
-    let raw = List.map (fun s -> match String.split_on_char '.' s with
-      | [i; b; nm; k] -> (n_of_hex i, n_of_hex b, n_of_hex nm, k)
-      | _ -> fail "C19: bad precommit %s" s) (split ',' pcs) in
-    let orders = perms ps (List.length raw) in
-    let (oo, bits) = (match split_ws obs with [a; b] -> (a, b) | _ -> ("?", "-")) in
-    if oo = "novoters" then
-      let m = new_voter_set ws in
-      { prop_ok = true; model_eq = (m = None); nontrivial = false; finding = "-"; tags = "vj,vj-novoters";
-        detail = if m = None then "" else "model has a voter set" }
-    else begin
-      let outs = String.split_on_char ';' oo in
-      let bl = List.map (fun b -> match String.split_on_char ':' b with
-        | [v; l] when String.length v = 2 -> (v.[0] = '1', v.[1] = '1', n_of_hex l)
-        | _ -> fail "C19: bad bits %s" b) (split ',' bits) in
-      match new_voter_set ws with
-      | None -> { prop_ok = true; model_eq = false; nontrivial = false; finding = "-"; tags = "vj,vj-novoters-model";
-                  detail = "the model has no voter set for these weights" }
-      | Some vs ->
-        if List.length outs <> List.length orders || List.length bl <> List.length raw then
-          { prop_ok = true; model_eq = false; nontrivial = false; finding = "-"; tags = "vj,bad-observation"; detail = obs }
-        else begin
-          let mk w = List.map2 (fun (i, b, nm, _) (o32, o64, l) ->
-            { p_hash = b; p_num = nm; p_id = i; p_sig = l; p_ok = (if w = 32 then o32 else o64) }) raw bl in
-          let pcs32 = mk 32 and pcs64 = mk 64 in
-          let sig_sane = List.for_all2 (fun (_, _, _, k) (o32, o64, _) -> o32 = (k = "v") && o64 = (k = "v")) raw bl in
-          let excess = excess_equivocation vs pcs64 in
-          let spec32 = justification_valid_spec vs hs fhash fnum thash tnum pcs32 in
-          let spec64 = justification_valid_spec vs hs fhash fnum thash tnum pcs64 in
-          let per = List.map2 (fun p o ->
-            let (r32, r64) = (match String.split_on_char '/' o with [a; b] -> (a, b) | _ -> ("?", "?")) in
-            let m32 = jo_str (verify_finalizes vs hs fhash fnum thash tnum (permute pcs32 p)) in
-            let m64 = jo_str (verify_finalizes vs hs fhash fnum thash tnum (permute pcs64 p)) in
-            (r32, r64, m32, m64)) orders outs in
-          let width_free = List.for_all (fun (a, b, _, _) -> (a = "ok") = (b = "ok")) per in
-          let accepts = uniq (List.concat_map (fun (a, b, _, _) -> [a = "ok"; b = "ok"]) per) in
-          let order_free = (List.length accepts = 1) in
-          let spec_ok = List.for_all (fun (a, b, _, _) -> (a = "ok") = spec32 && (b = "ok") = spec64) per in
-          let eq = sig_sane && List.for_all (fun (a, b, m32, m64) ->
-            (m32 = "ambiguous" || a = m32) && (m64 = "ambiguous" || b = m64)) per in
-          let prop = width_free && order_free && (excess || spec_ok) in
-          let finding = if (not prop) && excess && width_free then "commit-order-dependent-under-excess-equivocation" else "-" in
-          let (r0, _, m0, _) = List.hd per in
-          let ms = members vs pcs64 in
-          { prop_ok = prop; model_eq = eq || excess; nontrivial = ms <> []; finding;
-            tags = String.concat "," (["vj"; "vj-" ^ m0; (if spec64 then "vj-valid" else "vj-invalid")]
-              @ (if excess then ["vj-excess-equivocation"] else [])
-              @ (if List.exists (fun (_, _, _, k) -> k <> "v") raw then ["vj-bad-signature"] else [])
-              @ (if List.length ms < List.length raw then ["vj-non-member"] else [])
-              @ (if List.length (uniq (List.map fst ws)) < List.length ws then ["vj-repeated-voter-id"] else [])
-              @ (if sig_sane then [] else ["verdict-unexpected"]));
-            detail = (if prop && eq then "" else
-              Printf.sprintf "impl=%s model=%s spec-valid=%b%s%s%s" r0 m0 spec64
-                (if width_free then "" else " (uint32 and uint64 verdicts differ)")
-                (if order_free then "" else " (verdict depends on the precommit order)")
-                (if excess then " (equivocating weight exceeds total-threshold)" else "")) }
-        end
-    end
+    just_case "vj" (weights ws) base parents headers fblk fnum tblk tnum pcs ps obs
+  | ["vb"; auths; base; parents; headers; fblk; fnum; tblk; tnum; _round; _setid; pcs; ps] ->
+    (* one width (uint32), every authority weight 1: rewrite the observation into the two-width form *)
+    let ws = List.map (fun a -> (a, n_of_int 1)) (ints auths) in
+    let obs' = (match split_ws obs with
+      | [oo; bits] ->
+        let oo' = String.concat ";" (List.map (fun o -> o ^ "/" ^ o) (String.split_on_char ';' oo)) in
+        let bits' = if bits = "-" then "-" else String.concat "," (List.map (fun b ->
+          match String.split_on_char ':' b with [v; l] -> v ^ v ^ ":" ^ l | _ -> b) (String.split_on_char ',' bits)) in
+        oo' ^ " " ^ bits'
+      | _ -> obs) in
+    just_case "vb" ws base parents headers fblk fnum tblk tnum pcs ps obs'
   | _ -> fail "C19: bad input %s" inp
 
 let () = run_driver check
